@@ -158,7 +158,11 @@ package jmespath
 //@   ensures {C17} [token-position] 0 <= result.position && result.position <= len(lexer.expression)
 //@   ensures [token-type] result.tokenType == tNumber
 //@   ensures {C14} [token-start] result.position == old(lexer.currentPos) - old(lexer.lastWidth)
+//@   ensures {C04,C14} [the-scanned-text] result.length == lexer.currentPos - result.position && result.value == substr(lexer.expression, result.position, lexer.currentPos)
+//@   ensures {C04,C14} [only-digits-follow] (forall k int :: old(lexer.currentPos) <= k && k < lexer.currentPos ==> byteAt(lexer.expression, k) >= 48 && byteAt(lexer.expression, k) <= 57)
+//@   ensures {C04,C14} [longest-match] lexer.currentPos < len(lexer.expression) ==> (specRuneAt(lexer.expression, lexer.currentPos) < 48 || specRuneAt(lexer.expression, lexer.currentPos) > 57)
 //@   loop 1 invariant specLexOK(lexer.expression, lexer.currentPos, lexer.lastWidth) && start <= lexer.currentPos && lexer.currentPos >= old(lexer.currentPos) && start == old(lexer.currentPos) - old(lexer.lastWidth)
+//@   loop 1 invariant {C04,C14} [digits-so-far] (forall k int :: old(lexer.currentPos) <= k && k < lexer.currentPos ==> byteAt(lexer.expression, k) >= 48 && byteAt(lexer.expression, k) <= 57)
 //@   loop 1 decreases len(lexer.expression) - lexer.currentPos
 
 //@ func (*Lexer).consumeUnquotedIdentifier
